@@ -749,6 +749,8 @@ class PackageGen:
         if key:
             if self.cfg.time_keys and self.cfg.time_types and r.chance(0.2):
                 return Prim(r.choice(["date", "datetime"]))
+            if r.fork("oddkey").chance(0.15):
+                return Prim(r.fork("oddkey2").choice(["bool", "float64", "float32", "int8", "uint16", "uint32"]))
             return Prim(r.choice(["string", "string", "int32", "uint8", "int64", "uint64", "int16", "size"]))
         if numeric_only:
             opts = INT_PRIMS + FLOAT_PRIMS + ["bool"]
